@@ -1,6 +1,29 @@
 """Per-property configuration of tools/check.py."""
 
 PROPS = {
+    "C17": {
+        "modules": ["BioSeq.Props.C17"],
+        "programs": "c17",
+        "rule": "three layers: (i) op lines calling parse_variants/parse_width directly (source inclusion) on random declarations: 2..40 variants, distinct discriminants "
+                "in 0..=255 written as decimal/binary/hex/underscored-binary/byte literals, optional alts, optional display characters, optional width minimal..8; malformed: "
+                "too-small width, missing / float / string / negative discriminant, discriminant > 255; every max discriminant 0..255; (ii) a generated crate of well-formed enums "
+                "compiled with the real derive in dev and release: BITS, try_from_bits/ascii and unsafe_* over all 256 bytes, to_char, to_bits, items, sequence round trip, compared "
+                "with the model; (iii) a generated crate of malformed declarations (+ a non-enum), one per line: rustc must reject exactly the modelled lines; distinct = distinct line / declaration",
+        "trusted": ["rustc: first-matching-arm semantics of the generated match, proc-macro Err -> compile error; quote! expansion (exercised by the compiled programs)",
+                    "the harness's reading of the generated match arms in the direct layer (the compiled layer does not depend on it)"],
+    },
+    "C13": {
+        "modules": ["BioSeq.Props.C13"],
+        "exhaustive": True,
+        "rule": "finite part enumerated completely: all 64 codons through the extracted graph (decided in Lean) and through the line protocol at bit offsets 0..32 "
+                "(sampled offsets in quick, all 33 in thorough); wrong-length codons; random DNA sequences translated by windows(3) and chunks(3); distinct = distinct line",
+    },
+    "C14": {
+        "modules": ["BioSeq.Props.C14"],
+        "exhaustive": True,
+        "rule": "finite domain enumerated completely: all 16^3 IUPAC codons (extracted graph decided in Lean; every codon also run through the line protocol at a random "
+                "bit offset), codon lengths 0,1,2,4,5, all 21 amino symbols for try_to_codon / to_codon; distinct = distinct line",
+    },
     "C12": {
         "modules": ["BioSeq.Props.C12"],
         "rule": "IUPAC set-algebra op lines: all 256 symbol pairs for & and | (borrowed operators and owned bit_and/bit_or) and contains (Seq and SeqSlice impls) with the two "
